@@ -28,7 +28,7 @@ RX = {
 # (label, senders, sizes, earlies, closes, explore) ; explore=True: full interleaving check, False: scenarios only
 TX = {
     "quick": [
-        ("K3", "{1, 2, 3}", "{0, 1, 2, 3, 5}", "{FALSE, TRUE}", '{"none", "end", "mid"}', True),
+        ("K3", "{1, 2, 3}", "{0, 1, 3, 5}", "{FALSE, TRUE}", '{"none", "end", "mid"}', True),
         ("K1", "{1}", "{0, 1, 2, 3, 4, 5}", "{FALSE}", '{"none", "end", "mid"}', False),
         ("K2", "{1, 2}", "{1, 2, 3, 5}", "{FALSE}", '{"none", "end", "mid"}', False),
         ("K4", "{1, 2, 3, 4}", "{1, 2, 5}", "{FALSE}", '{"none", "mid"}', False),
